@@ -12,7 +12,12 @@ Implementation under test (real code, in-process, under a controlled os.environ)
   environmentWithName / defaultEnvironment calls, the caller rewriting the dictionaries it gets back; every
   answer is checked against the property oracle, against the answer of a fresh object, and against the model's
   session (Env.runCalls).
-Model: lean/St4sd/Model/Env.lean via drv-c17.  Theorems: lean/St4sd/Props/C17.lean, Witness/C17.lean.
+  %(name)s references ("vars" cases, `gen_world_vars`): packages with global variables per platform and several
+  environments whose variable names collide with global variable names and with each other, values referencing
+  workflow variables by %(name)s (and $NAME), in shuffled document orders; driven through all three flavours, the
+  flavours compared with each other where the order of the two expansions cannot matter, and a sample of all cases
+  is run AGAIN at the end of the process in another order (same answers required).
+Model: lean/St4sd/Model/Env.lean + Model/C17Vars.lean via drv-c17.  Theorems: lean/St4sd/Props/C17.lean, Witness/C17.lean.
 """
 from __future__ import annotations
 
@@ -20,6 +25,7 @@ import copy
 import itertools
 import json
 import os
+import re
 import string
 
 INTERP_VARS = ["PATH", "PYTHONPATH", "PYTHONHOME", "LD_LIBRARY_PATH"]
@@ -126,6 +132,164 @@ def gen_case(rng, presence=None, name_kind=None, plat=None, interp=None, primiti
             "disk": (not primitive) and rng.random() < 0.25}
 
 
+
+# ----------------------------------------------------------------------------------------
+# %(name)s references: worlds with global variables and several environments with colliding names
+# ----------------------------------------------------------------------------------------
+
+VPOOL = ["prefix", "X", "A", "B", "FOO", "bar", "PATH", "HOME", "root", "tool_dir", "INSTANCE_DIR", "OMP", "LIBDIR",
+         "BIN", "X1", "_U", "PYTHONPATH", "E", "n-cpus", "FLOW_RUN_ID"]
+VLITS = ["v", "/opt/x", ":", "/", "a b", "-", "_", "9", "x=1", "é", ".", "/bin", "s", "}", "{"]
+VENV_NAMES = ["a_tools", "otherenv", "zz-env", "b_tools"]
+_IDENT = re.compile(r"^[_a-zA-Z][_a-zA-Z0-9]*$")
+
+
+def gen_vvalue(rng, key, rank, scope, dollar, unresolvable=0.05):
+    """a text for variable `key`: literals (never % ( ) [ ]), %(M)s with rank(M) < rank(key), $M / ${M} with
+    rank(M) <= rank(key): whatever combination of definitions ends up in one interpolation context, the
+    %-reference graph is acyclic (a cycle makes FlowIR.interpolate recurse without end)"""
+    lower = [n for n in VPOOL if rank[n] < rank.get(key, len(VPOOL))]
+    lower_scope = [n for n in lower if n in scope]
+    upto = [n for n in VPOOL if rank[n] <= rank.get(key, len(VPOOL)) and _IDENT.match(n)]
+    out = []
+    for _ in range(rng.choice([0, 1, 1, 2, 2, 3])):
+        k = rng.random()
+        if k < 0.35 or not lower:
+            out.append(rng.choice(VLITS))
+        elif k < 0.8 or not dollar or not upto:
+            r = rng.random()
+            if r < unresolvable:
+                m = rng.choice(["UNDEF", "UNDEF", "replica"])
+            elif r < 0.75 and lower_scope:
+                m = rng.choice(lower_scope)
+            else:
+                m = rng.choice(lower)
+            out.append("%(" + m + ")s")
+        else:
+            m = rng.choice(upto)
+            out.append(rng.choice(["$" + m, "${" + m + "}"]))
+    return "".join(out)
+
+
+def gen_gvalue(rng, key, rank, visible, dollar):
+    """a text for global variable `key`: literals, %(M)s with M a lower-ranked global variable visible to the same
+    platform, rarely $M"""
+    lower = [n for n in VPOOL if rank[n] < rank[key] and n in visible]
+    out = []
+    for _ in range(rng.choice([0, 1, 1, 2, 2, 3])):
+        k = rng.random()
+        if k < 0.45 or not lower:
+            out.append(rng.choice(VLITS))
+        elif k < 0.9 or not dollar:
+            out.append("%(" + rng.choice(lower) + ")s")
+        else:
+            out.append("$" + rng.choice([n for n in VPOOL if _IDENT.match(n)]))
+    return "".join(out)
+
+
+def gen_world_vars(rng, pure=None, plat=None):
+    """platforms, global variables per platform, 2-5 environments (on default / platform / both, in shuffled
+    document order) whose keys are drawn from the pool the global variables are drawn from, launch + system vars"""
+    order = list(VPOOL)
+    rng.shuffle(order)
+    rank = {n: i for i, n in enumerate(order)}
+    platforms = ["default"] + rng.choice([[], ["plat"], ["plat"], ["plat", "other"]])
+    if plat is None:
+        plat = rng.choice(platforms)
+    elif plat not in platforms:
+        platforms.append(plat)
+    if pure is None:
+        pure = rng.random() < 0.45
+    base = rng.choice(["myenv", "my-env2", "e"])
+    gkeys = {}
+    for p in platforms:
+        k = rng.random()
+        if p != "default" and k < 0.2:
+            continue                                   # the platform declares no variables at all
+        gkeys[p] = rng.sample(VPOOL, rng.randint(0, 6)) if k > 0.3 else []
+    if rng.random() < 0.9:
+        gkeys.setdefault("default", [])
+        if not gkeys["default"]:
+            gkeys["default"] = rng.sample(VPOOL, rng.randint(2, 6))
+    allg = {n for ks in gkeys.values() for n in ks}
+    # which environment is declared where, and with which keys
+    names = [base] + rng.sample(VENV_NAMES, rng.randint(1, 3))
+    if rng.random() < 0.5:
+        names.append("environment")
+    ekeys = {}
+    for n in names:
+        where = rng.choice(["default", "platform", "both", "default", "both"])
+        if where in ("default", "both"):
+            ekeys[("default", n)] = rng.sample(VPOOL, rng.randint(0, 5))
+        if where in ("platform", "both") and plat != "default":
+            ekeys[(plat, n)] = rng.sample(VPOOL, rng.randint(0, 4))
+        for p in platforms:
+            if p not in ("default", plat) and rng.random() < 0.3:
+                ekeys[(p, n)] = rng.sample(VPOOL, rng.randint(0, 3))
+    syskeys = rng.sample(SYS_NAMES, rng.randint(0, 3))
+    variables = {}
+    for p, ks in gkeys.items():
+        variables[p] = {}
+        for n in ks:
+            if rng.random() < 0.08:
+                variables[p][n] = rng.choice([3, 12, 0])
+            elif rng.random() < 0.08:
+                variables[p][n] = ""
+            else:
+                # global variables resolve among themselves (a global variable that does not is an error of
+                # every component of the package — get_component_configuration — not an environment question)
+                visible = set(gkeys.get("default", [])) | set(ks)
+                variables[p][n] = gen_gvalue(rng, n, rank, visible, (not pure) and rng.random() < 0.15)
+    envs = {p: {} for p in platforms}
+    items = list(ekeys.items())
+    rng.shuffle(items)                                  # document order of the environments
+    for (p, n), ks in items:
+        scope = set(allg) | set(syskeys) | set(ekeys.get(("default", n), [])) | set(ekeys.get((plat, n), []))
+        d = {}
+        for k in ks:
+            d[k] = "" if rng.random() < 0.06 else gen_vvalue(rng, k, rank, scope, not pure)
+        if not pure and rng.random() < 0.3:
+            d["DEFAULTS"] = ":".join(rng.sample(VPOOL + ["UNDEF", "", CANARY], rng.randint(0, 3)))
+        spelled = random_case(rng, n) if rng.random() < 0.25 else n
+        envs[p][spelled] = d
+    launch = {}
+    for n in rng.sample(VPOOL + INTERP_VARS, rng.randint(0, 6)):
+        launch[n] = rng.choice(["", "v", "/usr/bin:/bin", "x y", "1", "/l/" + n])
+    launch[CANARY] = "canary-" + str(rng.randint(0, 9))
+    sysv = {n: rng.choice(["/i/dir", "exp", "run-1", "s-" + n]) for n in syskeys}
+    return {"platforms": platforms, "platform": plat, "envs": envs, "vars": variables, "launch": launch, "sys": sysv,
+            "pure": pure}, base
+
+
+def pick_name_vars(rng, world, base):
+    k = rng.random()
+    declared = sorted({n.lower() for e in world["envs"].values() for n in e})
+    if k < 0.62 and declared:
+        n = rng.choice(declared + [base])
+        return (n if rng.random() < 0.7 else random_case(rng, n)), "named"
+    if k < 0.8:
+        return rng.choice([None, "", "environment", random_case(rng, "environment")]), "environment"
+    if k < 0.88:
+        return rng.choice(["none", "NONE", "nOnE"]), "none"
+    if k < 0.94:
+        return "nosuchenv", "unknown"
+    return base, "named"
+
+
+def gen_case_vars(rng, primitive=None, pure=None, plat=None):
+    world, base = gen_world_vars(rng, pure, plat)
+    name, kind = pick_name_vars(rng, world, base)
+    if primitive is None:
+        primitive = rng.random() < 0.4
+    lname = (name or "environment").lower()
+    on_d = any(n.lower() == lname for n in world["envs"].get("default", {}))
+    on_p = world["platform"] != "default" and any(n.lower() == lname for n in world["envs"].get(world["platform"], {}))
+    presence = "both" if on_d and on_p else "default" if on_d else "platform" if on_p else "neither"
+    world.update(name=name, interp=rng.random() < 0.3, presence=presence, name_kind=kind, primitive=primitive,
+                 disk=(not primitive) and rng.random() < 0.25)
+    return world
+
+
 # ----------------------------------------------------------------------------------------
 # real code
 # ----------------------------------------------------------------------------------------
@@ -153,7 +317,27 @@ def doc_for(case):
     doc = {"components": [{"name": "c", "stage": 0, "command": cmd}],
            "platforms": list(case["platforms"]),
            "environments": {p: {n: dict(d) for n, d in e.items()} for p, e in case["envs"].items()}}
+    add_variables(doc, case)
     return doc
+
+
+def add_variables(doc, case):
+    """`variables:` of the document (global scope); a platform without variables is missing from the section, or
+    present and empty in one of three spellings (must make no difference)"""
+    if "vars" not in case:
+        return
+    doc["variables"] = {}
+    for p in case["platforms"]:
+        if p in case["vars"]:
+            doc["variables"][p] = {"global": dict(case["vars"][p])}
+        else:
+            k = (len(case["launch"]) + len(p) + len(case["envs"].get("default", {}))) % 4   # deterministic in the case
+            if k == 1:
+                doc["variables"][p] = {}
+            elif k == 2:
+                doc["variables"][p] = {"global": {}}
+            elif k == 3:
+                doc["variables"][p] = {"global": {}, "stages": {}}
 
 
 class built:
@@ -198,6 +382,8 @@ def err_kind(exc):
     n = type(exc).__name__
     if n == "FlowIREnvironmentUnknown":
         return "unknownEnv"
+    if n == "FlowIRVariableUnknown":
+        return "unknownVar"
     return "other:" + n
 
 
@@ -229,6 +415,8 @@ def model_request(case, withname=None):
            "platform": case["platform"], "launch": pairs(case["launch"]), "name": case["name"],
            "interp": case["interp"], "primitive": bool(case.get("primitive", True)),
            "reload": bool(case.get("disk", False)) and not case.get("primitive", True)}
+    if "vars" in case:
+        req["vars"] = [[p, pairs(d)] for p, d in case["vars"].items()]
     if withname is not None:
         req.update(withname)
     return req
@@ -288,30 +476,86 @@ def expand_with(value, first, second):
         return os.path.expandvars(s)
 
 
-def oracle(case, out, expand=True, remove=True):
-    """`out` = what the code answered for `case` (environmentForNode, or environmentWithName(name, expand, remove)
-    with case["interp"] False).  For expand=False only the sources of the variables are judged."""
+PCT = re.compile(r"%\(([a-zA-Z0-9_.-]+)\)s")
+
+
+def pct_resolve(name, ctx, safe, depth=0):
+    """the value of workflow variable `name` with every reference inside it resolved (recursively, same context);
+    None when the variable, or something it references, is not defined by `ctx`.  `safe`: %(replica)s may stay."""
+    if name not in ctx or depth > 64:
+        return None
+    ok = [True]
+
+    def rep(m):
+        r = pct_resolve(m.group(1), ctx, safe, depth + 1)
+        if r is None:
+            if not (safe and m.group(1) == "replica"):
+                ok[0] = False
+            return m.group(0)
+        return r
+
+    v = PCT.sub(rep, str(ctx[name]))
+    return v if ok[0] else None
+
+
+def pct_fill(value, ctx, safe=False):
+    """`value` with every %(name)s that `ctx` resolves replaced; the others stay as they are"""
+    def rep(m):
+        r = pct_resolve(m.group(1), ctx, safe)
+        return m.group(0) if r is None else r
+    return PCT.sub(rep, value)
+
+
+def layered_globals(case):
+    """global variables visible to the active platform: the platform's over the default platform's"""
+    g = {}
+    for p in ("default", case["platform"]):
+        for k, v in (case.get("vars", {}).get(p) or {}).items():
+            g[str(k)] = "" if v is None else str(v)
+    return g
+
+
+def selection_as_read(case):
+    """declared_sources + the global variables, as the configuration object reads them: a replicated configuration
+    reads the instance document, in which the %(name)s references of global variables (among themselves) and of
+    every environment (from itself and the global variables) are already resolved"""
     err, sel, fallback = declared_sources(case)
+    G = {}
+    if err is None and "vars" in case:
+        G = layered_globals(case)
+        if not case.get("primitive", True):
+            stored = bool(case.get("disk"))      # flowir_instance.yaml is made with is_primitive=True
+            G = {k: pct_fill(v, G, stored) for k, v in G.items()}
+            if not fallback:
+                own = dict(G)
+                own.update(sel)
+                sel = {k: pct_fill(v, own, stored) for k, v in sel.items()}
+    return err, sel, fallback, G
+
+
+def oracle(case, out, expand=True, remove=True, node=True):
+    """`out` = what the code answered for `case` (environmentForNode, or — node=False — environmentWithName(name,
+    expand, remove) with case["interp"] False).  For expand=False only the sources of the variables are judged.
+
+    Cases with "vars": values may reference workflow variables by %(name)s.  Such a reference is resolved from the
+    selected environment itself and the global variables of the active platform (layered over the default
+    platform's) — never from another environment.  The replicated flavours resolve them when the instance document
+    is made (global variables among themselves first; before the $NAME expansion), the primitive flavour in
+    environmentForNode (after the $NAME expansion); environmentForNode finally resolves what is left from the
+    global variables and the environment built (system variables, imports), and reports a reference nothing
+    resolves (FlowIRVariableUnknown) — except %(replica)s of a primitive graph, which stays."""
+    err, sel, fallback, G = selection_as_read(case)
     if err is not None:
         if out.get("error") != err:
             return "undefined-environment-not-reported", {"expected": err}
         return None, None
-    if "error" in out:
-        return "defined-environment-raises", {"got": out["error"]}
-    env = out["ok"]
+    vars_mode = "vars" in case
+    prim = bool(case.get("primitive", True))
     launch = case["launch"]
     sysv = case["sys"]
     declared = dict(sysv)
     declared.update(sel)
     imports = [n for n in declared.get("DEFAULTS", "").split(":")] if "DEFAULTS" in declared else []
-    allowed = set(declared) | {n for n in imports if n in launch}
-    if case["interp"]:
-        allowed |= {n for n in INTERP_VARS if n in launch}
-    extra = sorted(k for k in env if k not in allowed)
-    if extra:
-        return "variable-from-undeclared-source", {"keys": extra}
-    if remove and "DEFAULTS" in env and "DEFAULTS" not in [n for n in imports if n in launch]:
-        return "defaults-key-not-removed", None
     # values: declared text (imports merged) expanded from the environment itself, then from the launch env
     pre = dict(declared)
     for n in imports:
@@ -322,6 +566,28 @@ def oracle(case, out, expand=True, remove=True):
                 pre[n] = launch[n]
     if "DEFAULTS" in declared and remove:
         pre.pop("DEFAULTS", None)
+    expected = {}
+    if expand:
+        expected = {k: expand_with(v, pre, launch) for k, v in pre.items() if v != ""}
+        if vars_mode and node:
+            own = dict(G)
+            own.update(expected)
+            expected = {k: pct_fill(v, own, prim) for k, v in expected.items()}
+    if "error" in out:
+        if vars_mode and node and expand and out["error"] == "unknownVar":
+            left = [m.group(1) for v in expected.values() for m in PCT.finditer(v)]
+            if any(not (prim and n == "replica") for n in left):
+                return None, None      # a reference that no declared source resolves: reported, not guessed
+        return "defined-environment-raises", {"got": out["error"]}
+    env = out["ok"]
+    allowed = set(declared) | {n for n in imports if n in launch}
+    if case["interp"]:
+        allowed |= {n for n in INTERP_VARS if n in launch}
+    extra = sorted(k for k in env if k not in allowed)
+    if extra:
+        return "variable-from-undeclared-source", {"keys": extra}
+    if remove and "DEFAULTS" in env and "DEFAULTS" not in [n for n in imports if n in launch]:
+        return "defaults-key-not-removed", None
     # every declared variable with a non-empty value is present (an empty one may be dropped, as coded)
     missing = sorted(k for k, v in pre.items() if v != "" and k not in env)
     if missing:
@@ -330,9 +596,12 @@ def oracle(case, out, expand=True, remove=True):
         return None, None
     for k, v in env.items():
         if k in pre and pre[k] != "":
-            exp = expand_with(pre[k], pre, launch)
+            exp = expected[k]
             if v != exp:
-                return "value-not-expanded-from-declared-sources", {"key": k, "expected": exp, "got": v}
+                slug = "value-not-expanded-from-declared-sources"
+                if vars_mode and PCT.search(str(case_raw_value(case, k))):
+                    slug = "value-not-resolved-from-own-environment-and-globals"
+                return slug, {"key": k, "expected": exp, "got": v}
         elif k in pre and v == "":
             pass  # declared empty and kept empty: neither required nor forbidden by the property
         elif case["interp"] and k in INTERP_VARS:
@@ -348,6 +617,38 @@ def oracle(case, out, expand=True, remove=True):
         if not mentioned and any(launch[CANARY] in v for v in env.values()):
             return "launch-variable-leaks-into-values", None
     return None, None
+
+
+def case_raw_value(case, key):
+    """the text the package declares for `key` in the selected environment (before any resolution)"""
+    _, sel, _ = declared_sources(case)
+    return (sel or {}).get(key, "")
+
+
+def flavours_commute(case):
+    """True when the property's reading leaves no room for the primitive and the replicated configuration to
+    answer differently: the two flavours expand $NAME and %(name)s in opposite orders and resolve references of
+    global variables in different scopes, which is invisible when no value involved contains `$`, nothing is
+    imported through DEFAULTS, no variable of the environment is declared empty, no global variable shares its name with a system variable or references a variable
+    the environment (or the system variables) defines, and %(replica)s is not used"""
+    if "vars" not in case:
+        return False
+    err, sel, fallback = declared_sources(case)
+    if err is not None:
+        return True
+    G = layered_globals(case)
+    texts = list(G.values()) + list(sel.values()) + [str(v) for v in case["sys"].values()]
+    if any("$" in t or "replica" in t for t in texts) or any(str(v) == "" for v in sel.values()):
+        return False
+    if "DEFAULTS" in sel or "DEFAULTS" in case["sys"]:
+        return False
+    if set(G) & set(case["sys"]):
+        return False
+    local = set(sel) | set(case["sys"])
+    for v in G.values():
+        if any(m.group(1) in local for m in PCT.finditer(v)):
+            return False
+    return True
 
 
 # ----------------------------------------------------------------------------------------
@@ -393,13 +694,22 @@ def gen_session(rng, primitive=None):
             return n if rng.random() < 0.7 else random_case(rng, n)
         return "nosuchenv"
 
-    comps = [{"env": pick_name(), "interp": rng.random() < 0.35} for _ in range(rng.randint(2, 4))]
     launch = {k: ("" if v is None else str(v)) for k, v in gen_dict(rng, names, 1, 7).items()}
     launch[CANARY] = "canary-" + str(rng.randint(0, 9))
     # system variables are never empty here: an experiment instance always has INSTANCE_DIR & co
     sysv = {}
     for nm in rng.sample(SYS_NAMES, rng.randint(1, 4)):
         sysv[nm] = rng.choice(["/i/dir", "exp", "$A", "s-" + nm, "run-1"])
+    comps, calls = gen_calls(rng, pick_name)
+    if primitive is None:
+        primitive = rng.random() < 0.5
+    return {"session": {"platforms": platforms, "platform": plat, "envs": envs, "launch": launch, "sys": sysv,
+                        "primitive": primitive, "disk": (not primitive) and rng.random() < 0.25,
+                        "comps": comps, "calls": calls}}
+
+
+def gen_calls(rng, pick_name):
+    comps = [{"env": pick_name(), "interp": rng.random() < 0.35} for _ in range(rng.randint(2, 4))]
     calls = []
     for _ in range(rng.randint(2, 7)):
         k = rng.random()
@@ -416,11 +726,19 @@ def gen_session(rng, primitive=None):
             again = dict(call)
             again.pop("mutate")
             calls.append(again)
+    return comps, calls
+
+
+def gen_session_vars(rng, primitive=None):
+    """a session on a world with global variables and %(name)s references (see gen_world_vars)"""
+    world, base = gen_world_vars(rng)
+    if not world["sys"]:
+        world["sys"] = {"INSTANCE_DIR": "/i/dir"}
+    comps, calls = gen_calls(rng, lambda: pick_name_vars(rng, world, base)[0])
     if primitive is None:
-        primitive = rng.random() < 0.5
-    return {"session": {"platforms": platforms, "platform": plat, "envs": envs, "launch": launch, "sys": sysv,
-                        "primitive": primitive, "disk": (not primitive) and rng.random() < 0.25,
-                        "comps": comps, "calls": calls}}
+        primitive = rng.random() < 0.4
+    world.update(primitive=primitive, disk=(not primitive) and rng.random() < 0.25, comps=comps, calls=calls)
+    return {"session": world}
 
 
 def session_doc(sess):
@@ -432,8 +750,10 @@ def session_doc(sess):
         if c["interp"]:
             cmd["interpreter"] = "bash"
         comps.append({"name": "c%d" % i, "stage": 0, "command": cmd})
-    return {"components": comps, "platforms": list(sess["platforms"]),
-            "environments": {p: {n: dict(d) for n, d in e.items()} for p, e in sess["envs"].items()}}
+    doc = {"components": comps, "platforms": list(sess["platforms"]),
+           "environments": {p: {n: dict(d) for n, d in e.items()} for p, e in sess["envs"].items()}}
+    add_variables(doc, sess)
+    return doc
 
 
 def mutation_edits(kind):
@@ -496,7 +816,7 @@ def run_session_impl(sess, calls=None):
 
 def call_case(sess, call):
     """the single-call case (input of `oracle`) a call of a session corresponds to"""
-    base = {k: sess[k] for k in ("platforms", "platform", "envs", "launch", "sys")}
+    base = {k: sess[k] for k in ("platforms", "platform", "envs", "launch", "sys", "vars") if k in sess}
     base["primitive"] = bool(sess.get("primitive", True))
     base["disk"] = bool(sess.get("disk", False))
     if call["op"] == "node":
@@ -512,7 +832,7 @@ def call_case(sess, call):
 def oracle_default(sess, out):
     """defaultEnvironment(): 'the package's default environment (or the launch environment if the package defines
     none)' — exactly that, nothing of the system variables or of other environments"""
-    err, sel, fallback = declared_sources(call_case(sess, {"op": "default"}))
+    err, sel, fallback, _ = selection_as_read(call_case(sess, {"op": "default"}))
     if "error" in out:
         return "default-environment-raises", {"got": out["error"]}
     if out["ok"] != sel:
@@ -542,7 +862,8 @@ def eval_session(sess):
         if call["op"] == "default":
             why, detail = oracle_default(sess, out)
         elif call["op"] == "withname":
-            why, detail = oracle(call_case(sess, call), out, expand=call["expand"], remove=call["remove"])
+            why, detail = oracle(call_case(sess, call), out, expand=call["expand"], remove=call["remove"],
+                                 node=False)
         else:
             why, detail = oracle(call_case(sess, call), out)
         if why:
@@ -570,11 +891,14 @@ def session_request(sess):
             calls.append({"op": "default"})
         if call.get("mutate"):
             calls.append({"op": "mutate", "edits": pairs(mutation_edits(call["mutate"]))})
-    return {"op": "session", "sys": pairs(sess["sys"]),
-            "envs": [[p, [[n, pairs(d)] for n, d in e.items()]] for p, e in sess["envs"].items()],
-            "platform": sess["platform"], "launch": pairs(sess["launch"]),
-            "primitive": bool(sess.get("primitive", True)),
-            "reload": bool(sess.get("disk", False)) and not sess.get("primitive", True), "calls": calls}
+    req = {"op": "session", "sys": pairs(sess["sys"]),
+           "envs": [[p, [[n, pairs(d)] for n, d in e.items()]] for p, e in sess["envs"].items()],
+           "platform": sess["platform"], "launch": pairs(sess["launch"]),
+           "primitive": bool(sess.get("primitive", True)),
+           "reload": bool(sess.get("disk", False)) and not sess.get("primitive", True), "calls": calls}
+    if "vars" in sess:
+        req["vars"] = [[p, pairs(d)] for p, d in sess["vars"].items()]
+    return req
 
 
 def session_nontrivial(sess):
@@ -591,6 +915,10 @@ def check_sessions(ctx, cases):
                 "session-platform:" + ("default" if sess["platform"] == "default" else "other")]
         tags += sorted({"call:" + c["op"] + (":" + c["via"] if c["op"] == "node" else "") for c in sess["calls"]})
         tags += sorted({"mutate:" + c["mutate"] for c in sess["calls"] if c.get("mutate")})
+        if "vars" in sess:
+            tags.append("session-with-%(name)s-references")
+        if not isinstance(answers, dict):
+            SEEN_SESSIONS.append((case, answers))
         if isinstance(answers, dict):
             tags.append("session-construct-error")
         ctx.case(case, nontrivial=session_nontrivial(sess), tags=tags)
@@ -640,6 +968,8 @@ CLASSIFIERS = {}
 # ----------------------------------------------------------------------------------------
 
 ALPH = ["$", "$", "{", "}", "_", "a", "B", "1", "-", ":", "/", " ", "AB", "a1", "$$", "${", "é"]
+ALPH_V = ["%", "%", "(", "(", ")", ")", "s", "s", "%(", ")s", "a", "B", "1", "-", ".", "_", "/", " ", "AB", "a1", "%%",
+          "é", "$", "S", "%(a)s", "%(a-1.B)s"]
 
 
 def gen_subst_case(rng):
@@ -650,7 +980,20 @@ def gen_subst_case(rng):
     return {"kind": rng.choice(["T", "E"]), "s": s, "map": m}
 
 
+def gen_subst_case_v(rng):
+    s = "".join(rng.choice(ALPH_V) for _ in range(rng.randint(0, 10)))
+    m = {}
+    for nm in rng.sample(["a", "B", "AB", "a1", "_", "1", "a-1.B", "B1", "-", "."], rng.randint(0, 5)):
+        m[nm] = rng.choice(["", "<" + nm + ">", "x", "s"])
+    return {"kind": "V", "s": s, "map": m}
+
+
 def impl_subst(c):
+    if c["kind"] == "V":
+        # the references FlowIR.interpolate finds: FlowIR.VariablePattern, leftmost first, non-overlapping
+        import experiment.model.frontends.flowir as F
+        pat = re.compile(F.FlowIR.VariablePattern)
+        return pat.sub(lambda m: c["map"].get(m.group()[2:-2], m.group()), c["s"])
     if c["kind"] == "T":
         return string.Template(c["s"]).safe_substitute(c["map"])
     with patched_environ(c["map"]):
@@ -664,8 +1007,9 @@ def check_subst(ctx, cases):
         out = impl_subst(c)
         ctx.case({"subst": c}, nontrivial=("$" in c["s"] and len(c["map"]) > 0), tags=["subst:" + c["kind"]])
         if mo is not None:
-            ctx.compare("Env.substT/expandvars == string.Template.safe_substitute/os.path.expandvars", {"subst": c},
-                        {"out": mo[i]["out"]}, {"out": out})
+            rel = ("Env.tokV == re.finditer(FlowIR.VariablePattern)" if c["kind"] == "V" else
+                   "Env.substT/expandvars == string.Template.safe_substitute/os.path.expandvars")
+            ctx.compare(rel, {"subst": c}, {"out": mo[i]["out"]}, {"out": out})
 
 
 # ----------------------------------------------------------------------------------------
@@ -689,15 +1033,125 @@ def check_cases(ctx, cases):
                 "flavour:" + flavour(c)]
         if any("DEFAULTS" in d for e in c["envs"].values() for d in e.values()):
             tags.append("has-DEFAULTS")
+        if "vars" in c:
+            tags += vars_tags(c)
         ctx.case(c, nontrivial=nontrivial(c), tags=tags)
+        SEEN_CASES.append((c, raw))
         why, detail = oracle(c, raw)
         if why:
             ctx.fail(why, c, {"impl": raw, "detail": detail})
+        if flavours_commute(c):
+            # the environment is a function of the package, the platform and the launch environment: the
+            # configuration that reads the package and the one that reads its instance document agree
+            other = dict(c, primitive=not c.get("primitive", True), disk=False)
+            raw2 = canon_out(impl(other), strip=False)
+            ctx.tag("cross-flavour-comparisons")
+            if canon_out(raw) != canon_out(raw2):
+                ctx.fail("primitive-and-replicated-environments-differ", c,
+                         {"this": raw, "flavour_of_this": flavour(c), "other": raw2, "flavour_of_other": flavour(other)})
         if mo is not None:
             ctx.compare("environmentForNode == Env.envForNode", c, canon_out(mo[2 * i]), out)
             wn = {"expand": False, "remove": c.get("wn_remove", True)}
             out2 = canon_out(impl(c, wn))
             ctx.compare("environmentWithName(expand=False) == Env.envWithName", c, canon_out(mo[2 * i + 1]), out2)
+
+
+SEEN_CASES = []
+SEEN_SESSIONS = []
+
+
+def vars_tags(c):
+    """which of the shapes the %(name)s cases are meant to contain this one has"""
+    tags = ["%(name)s-references"]
+    err, sel, fallback = declared_sources(c)
+    if err is not None or fallback:
+        return tags
+    G = layered_globals(c)
+    refs = {m.group(1) for v in sel.values() for m in PCT.finditer(str(v))}
+    lname = (c["name"] or "environment").lower()
+    order = [n.lower() for p in ("default", c["platform"]) for n in c["envs"].get(p, {})]
+    others = {}
+    for p in ("default", c["platform"]):
+        for n, d in c["envs"].get(p, {}).items():
+            if n.lower() != lname:
+                others.setdefault(n.lower(), set()).update(d)
+    if refs & set(G):
+        tags.append("references-a-global-variable")
+    if refs & set(sel):
+        tags.append("references-own-variable")
+    if set(sel) & set(G):
+        tags.append("own-variable-shadows-a-global")
+    for n, keys in others.items():
+        hit = (refs - set(sel)) & keys
+        if hit & set(G):
+            tags.append("another-environment-defines-a-referenced-global"
+                        + ("-and-comes-first" if n in order and lname in order and order.index(n) < order.index(lname)
+                           else "-and-comes-later"))
+        if hit - set(G):
+            tags.append("reference-only-another-environment-defines")
+    if any(r not in G and r not in sel and r not in c["sys"] for r in refs):
+        tags.append("unresolvable-reference")
+    return sorted(set(tags))
+
+
+def check_again(ctx, rng, n_cases, n_sessions):
+    """process-level state: a sample of the cases and sessions served so far is served AGAIN, in another order,
+    after everything else this process has loaded — the answers must be the ones given the first time"""
+    sample = rng.sample(SEEN_CASES, min(n_cases, len(SEEN_CASES)))
+    rng.shuffle(sample)
+    for c, first in sample:
+        again = canon_out(impl(c), strip=False)
+        ctx.tag("served-again")
+        if again != first:
+            ctx.fail("result-depends-on-earlier-cases", c, {"first": first, "again": again})
+    sample = rng.sample(SEEN_SESSIONS, min(n_sessions, len(SEEN_SESSIONS)))
+    rng.shuffle(sample)
+    for case, first in sample:
+        again = run_session_impl(case["session"])
+        ctx.tag("served-again")
+        if again != first:
+            ctx.fail("result-depends-on-earlier-cases", case, {"first": first, "again": again})
+
+
+CHILD = r"""
+import sys, os, json, warnings
+warnings.filterwarnings("ignore")
+sys.dont_write_bytecode = True
+repo = os.environ.get("ST4SD_REPO", "/repo")
+sys.path[0:0] = [os.path.join(repo, "python"), repo, os.getcwd()]
+from harness import c17
+cases = json.load(sys.stdin)
+json.dump([c17.canon_out(c17.impl(c), strip=False) for c in cases], sys.stdout)
+"""
+
+
+def check_other_hash_seed(ctx, rng, n):
+    """the code keeps the environments (and variables) of a package in containers whose iteration order follows
+    the hash seed of the process: a sample of the cases is served by a child process with ANOTHER hash seed (other
+    processing order of sibling environments) — the environments must be the same"""
+    import subprocess
+    import sys
+    with_vars = [x for x in SEEN_CASES if "vars" in x[0]]
+    without = [x for x in SEEN_CASES if "vars" not in x[0]]
+    sample = rng.sample(with_vars, min(n, len(with_vars))) + rng.sample(without, min(n // 3, len(without)))
+    if not sample:
+        return
+    here = os.path.dirname(os.path.dirname(os.path.abspath(__file__)))
+    mine = os.environ.get("PYTHONHASHSEED", "0")
+    other = str((int(mine) if mine.isdigit() else 0) + 1 + rng.randrange(1000))
+    env = dict(os.environ, PYTHONHASHSEED=other, PYTHONDONTWRITEBYTECODE="1")
+    p = subprocess.run([sys.executable, "-c", CHILD], input=json.dumps([c for c, _ in sample]), cwd=here, env=env,
+                       stdout=subprocess.PIPE, stderr=subprocess.PIPE, text=True, timeout=1800)
+    try:
+        answers = json.loads(p.stdout)
+    except Exception:  # noqa
+        from harness.common import InfraError
+        raise InfraError("C17: child process with another hash seed failed: " + p.stderr[-400:])
+    for (c, first), again in zip(sample, answers):
+        ctx.tag("served-under-another-hash-seed")
+        if again != first:
+            ctx.fail("result-depends-on-hash-seed", c, {"hash_seed": mine, "answer": first, "other_hash_seed": other,
+                                                        "other_answer": again})
 
 
 CORPUS = [
@@ -718,6 +1172,19 @@ CORPUS = [
      "presence": "both", "name_kind": "named", "primitive": False},
 ]
 CORPUS.append(dict(CORPUS[-1], disk=True))
+# %(name)s references: environment b_tools references the global variable `prefix`; environment a_tools, declared
+# before it and never selected, has a variable of its own called `prefix`; system variable referenced by a global
+_VARS_BASE = {"platforms": ["default", "cluster"],
+              "vars": {"default": {"prefix": "/global/prefix", "work": "%(prefix)s/w", "two": "%(prefix)s/2"},
+                       "cluster": {"prefix": "/cluster/prefix"}},
+              "envs": {"default": {"a_tools": {"prefix": "/opt/a", "BIN_A": "%(prefix)s/bin"},
+                                   "b_tools": {"BIN_B": "%(prefix)s/bin:%(two)s", "W": "%(work)s:$BIN_B:%(INSTANCE_DIR)s"}},
+                       "cluster": {"B_Tools": {"LIB_B": "%(prefix)s/lib"}}},
+              "launch": {"HOME": "/root", CANARY: "canary-5"}, "sys": {"INSTANCE_DIR": "/i"}, "interp": False,
+              "presence": "both", "name_kind": "named", "pure": False}
+for _plat, _name, _prim, _disk in (("cluster", "B_TOOLS", False, False), ("cluster", "b_tools", True, False),
+                                   ("default", "b_tools", False, True), ("cluster", "a_tools", False, False)):
+    CORPUS.append(dict(copy.deepcopy(_VARS_BASE), platform=_plat, name=_name, primitive=_prim, disk=_disk))
 
 SESSION_CORPUS = [
     # every kind of source once, twice, in both orders, on one object; the caller rewrites what it gets
@@ -766,9 +1233,20 @@ def run(ctx):
                 ">= 1 system variable) serving 2-12 calls (environmentForNode via graph / componentSpecification / "
                 "configuration, environmentWithName(name, expand, remove), defaultEnvironment), the caller rewriting "
                 "returned dictionaries in place (add / overwrite / clear / inject DEFAULTS) and asking again; "
-                "non-trivial = >= 2 different calls; distinct by canonical JSON")
-    ctx.assumptions = ["environment values contain no %(variable)s references (FlowIR.fill_in of environment values "
-                       "with workflow variables is outside the model)",
+                "non-trivial = >= 2 different calls; distinct by canonical JSON.  %(name)s cases: packages with "
+                "global variables on the default and/or the active platform (missing / empty / int / empty-string "
+                "values) and 2-5 environments declared on default / platform / both in shuffled document order, all "
+                "keys drawn from one pool of 20 names (so environments shadow global variables and each other), values "
+                "= literals, %(M)s to lower-ranked names (preferring resolvable ones, sometimes names only another "
+                "environment defines, sometimes undefined / replica), $M / ${M}, optional DEFAULTS; each driven as "
+                "primitive / replicated / instance-directory, compared with the other flavour where the order of the "
+                "two expansions cannot matter; a sample of all cases and sessions is served again at the end of the "
+                "process in another order")
+    ctx.assumptions = ["`%` occurs in environment values and global variables only in well-formed %(name)s "
+                       "references to plain names (no dotted scopes, no [index] array accesses, no incomplete "
+                       "%(name), no names built by other references), the reference graph of every interpolation "
+                       "context is acyclic (FlowIR.interpolate recurses without end on a cycle), launch and system "
+                       "variables contain no `%`",
                        "os.environ is replaced in-process for the duration of one call / one session (the launch "
                        "environment does not change while a configuration object lives)",
                        "a declared variable whose value is the empty string may be absent from the result "
@@ -787,14 +1265,22 @@ def run(ctx):
             cases.append(gen_case(rng, presence, nk, plat, interp, primitive=(r % 2 == 0)))
     for _ in range(400 if quick else 6000):
         cases.append(gen_case(rng))
+    for i in range(700 if quick else 9000):
+        cases.append(gen_case_vars(rng, primitive=(None if i % 3 else False)))
     ctx.exhaustive = False
     ctx.shrinker = shrink_case
+    del SEEN_CASES[:], SEEN_SESSIONS[:]
     check_cases(ctx, cases)
     sessions = [copy.deepcopy(c) for c in SESSION_CORPUS]
     for _ in range(320 if quick else 4000):
         sessions.append(gen_session(rng))
+    for _ in range(120 if quick else 1500):
+        sessions.append(gen_session_vars(rng))
     check_sessions(ctx, sessions)
-    check_subst(ctx, [gen_subst_case(rng) for _ in range(3000 if quick else 40000)])
+    check_subst(ctx, [gen_subst_case(rng) for _ in range(3000 if quick else 40000)]
+                + [gen_subst_case_v(rng) for _ in range(2000 if quick else 30000)])
+    check_again(ctx, rng, 250 if quick else 2500, 60 if quick else 600)
+    check_other_hash_seed(ctx, rng, 240 if quick else 3000)
 
 
 def replay(ctx, doc):
@@ -804,4 +1290,7 @@ def replay(ctx, doc):
     elif "session" in case:
         check_sessions(ctx, [case])
     else:
+        del SEEN_CASES[:]
         check_cases(ctx, [case])
+        check_again(ctx, ctx.rng, 1, 0)
+        check_other_hash_seed(ctx, ctx.rng, 1)
